@@ -34,8 +34,30 @@ def generate(rng, tier):
                 y = x + rng.choice([1, 2, 508, 510, 1017, 1019])          # other slots
                 ly = s.add("unwind R CR ra %s %s S" % (hx(y + 1), regs))
                 s.meta[ly] = {"x": y, "cacheable": True}
+            if j % 4 == 1:
+                # removing a start that is not registered changes nothing: same module-set identity, the repeat still hits
+                lr = s.add("remove R %s" % hx(rng.choice([0x1234, 0x900001, 0x910000, M64])))
+                s.meta[lr] = {"unknown_remove": "R"}
             l2 = s.add("unwind R CR ra %s %s %s" % (hx(x + 1), regs, memid), tag="%s:repeat:second:%s" % (arch, memid))
             s.meta[l2] = {"must_hit": True, "prev": l1, "x": x, "cacheable": True}
+        # an image that straddles a 4 GiB boundary: the slot is the FULL address mod 509 (2^32 mod 509 = 355, so the
+        # collision relation across the boundary differs from that of the low 32 bits)
+        f2 = [dict(start=0x100, len=0x8000, rows=[(0, suites.std_row(arch, "frameless", 2))])]
+        s.module_dwarf("MW", 0xfffff000, 0x100008000, 0xfffff000, 0, rng.choice(["hdr", "eh", "debug"]), f2, rng)
+        s.add("add R MW"); s.add("newcache CW")
+        for j in range(8):
+            x = 0xfffff100 + rng.below(0xe00)                                  # below the boundary
+            if j % 2 == 0:
+                y = x + N * rng.range(8, 40)                                     # truly collides, above the boundary
+            else:
+                e = ((x & 0xffffffff) % N) + N * rng.range(1, 30)                # collides in the low 32 bits only
+                y = (1 << 32) + e
+            regs = s.regs_x86(x, 0x7000, 0x7100) if arch == "x86" else s.regs_a64(M64, 0x5555, 0x7000, 0x7100)
+            for k2, a in enumerate((x, y, x)):
+                ln = s.add("unwind R CW ra %s %s S" % (hx(a + 1), regs), tag="%s:straddle:%s:%d" % (arch, "true" if j % 2 == 0 else "low32", k2))
+                s.meta[ln] = {"x": a, "cacheable": True}
+                if k2 == 2 and j % 2 == 1:
+                    s.meta[ln]["must_hit"] = True
         out.append((name, s))
     return out
 
@@ -56,6 +78,9 @@ def judge(script, impl):
             shadow[toks[1]] = {}
             continue
         if toks[0] in ("new", "add", "remove", "gen") and line.startswith("gen "):
+            if script.meta.get(ln, {}).get("unknown_remove") and gen_of.get(toks[1]) not in (None, int(line.split()[1])):
+                bad.append((ln, "removing an unregistered start changed the module-set identity (%s -> %s): cached rules are lost"
+                            % (gen_of.get(toks[1]), line.split()[1])))
             gen_of[toks[1]] = int(line.split()[1]); continue
         if toks[0] == "clone" and line.startswith("gen "):
             gen_of[toks[2]] = int(line.split()[1]); continue
